@@ -201,3 +201,22 @@ def register(claim, na):
         "SymTrace path exploration with z3 for the coefficient-level clauses; ground numeric oracle for scipy.sparse/text clauses",
         "DESIGN.md §1 E2, §2 C09",
     )
+    claim(
+        "C04", "model_checking",
+        "Symbolic model checking of the chain of views of one simulated state. With every gate angle symbolic (asymmetric RY layer on each "
+        "qubit, CNOT/SWAP/RX/RZ entanglers, n <= 3 quick / 4 thorough) the REAL SymbolicSimulator.get_wavefunction, "
+        "get_measurement_outcome_distribution(circuit, None), get_exact_expectation_values (every Z-type operator on every qubit subset, X/Y "
+        "and mixed strings, a sum with a constant) and run_and_measure in BOTH sampling branches are executed, and z3 decides for all angles: "
+        "amplitudes = ordered product of bit-level embeddings (qubit 0 most significant); distribution[key] = |amplitude|^2 of the basis state "
+        "with those bits; exact expectation = <psi|P|psi> with operator qubit q = circuit qubit q; exact Z-expectation = eigenvalue average "
+        "under the exact distribution (two real views, no oracle); each returned sample tuple was drawn with the probability of the basis state "
+        "carrying those bits and has the register's length. sample_from_wavefunction and "
+        "create_bitstring_distribution_from_probability_distribution are also explored on fully generic symbolic amplitudes / probability vectors; "
+        "expectation from frequencies with every count symbolic and single-shot estimates with symbolic coefficients close the chain.",
+        "Stubs (listed in evidence): scipy.sparse mat-vec inside expectation() replaced by the dense product of the matrix the REAL "
+        "get_sparse_operator returned; numpy Generator.choice replaced by a recording stub (numpy's contract: draws only where p > 0), so "
+        "'non-zero probability' follows from the proved alignment; float()/is_normalized stubs for the symbolic distribution; a Circuit "
+        "subclass bypasses the unbound-symbol guard of sampling. Count strings and the stub-free pipeline on all basis states / seeded angles are ground instances.",
+        "symbolic execution of the real simulator/sampling/expectation code on sympy angles and shadow amplitudes + z3 QF_NRA identities against a bit-level oracle",
+        "DESIGN.md §1 E1/E2, §2 C04",
+    )
